@@ -47,6 +47,7 @@ fn main() {
             }
             let mut rep = Report::new(&id, &tier, level_of(&id));
             let r = util::guarded(|| match id.as_str() {
+                "C01" => props::c01::run(&mut rep),
                 "C05" => props::c05::run(&mut rep),
                 "C06" => props::c06::run(&mut rep),
                 "C07" => props::eps::c07(&mut rep),
@@ -85,6 +86,7 @@ fn main() {
                 .unwrap_or_default();
             println!("replaying {} ({}), {} steps; expected: {}", prop, config, labels.len(), v["detail"]);
             let out = match prop.as_str() {
+                "C01" => props::c01::replay(&config, &labels),
                 "C05" => props::c05::replay(&config, &labels),
                 "C06" => props::c06::replay(&config, &labels),
                 "C07" | "C08" | "C12" | "C13" | "C14" | "C15" | "C19" => props::eps::replay(&config, &labels),
